@@ -120,12 +120,14 @@ def main(argv=None):
         broken.append(("audit", b, b))
     # ---- translator obligations (regenerated from /repo) if the property has some
     gen_info = {}
-    if hasattr(mod, "regenerate"):
+    if ok:
         try:
-            gen_info = mod.regenerate(ctx) or {}
+            gen_info = common.regenerate(pid)
             for g in gen_info.get("broken", []):
                 broken.append(("translator", g[0], g[1]))
-        except Exception as e:  # fail closed
+            if gen_info.get("lemmas"):
+                ctx.log(f"regenerated {gen_info['generated']} from {common.REPO}; source-equivalence lemmas: {gen_info['lemmas']}")
+        except Exception:  # fail closed
             broken.append(("translator", "exception", traceback.format_exc()[-2000:]))
     # ---- K: correspondence
     runner_ok = os.path.exists(os.path.join(common.OCAML, "modelrun"))
@@ -191,6 +193,8 @@ def main(argv=None):
             "harness: generators, implementation drivers, tolerance comparison (harness/)",
         ],
         "theorems": props["theorems"],
+        "source_equivalence_lemmas": gen_info.get("lemmas", []),
+        "regenerated_from_source": gen_info.get("generated", []),
         "evaluations": ctx.evaluations,
         "distinct_nontrivial": len(ctx.nontrivial),
         "rule": getattr(mod, "RULE", ""),
